@@ -311,7 +311,10 @@ pub fn generate_huge(seed: u64) -> Scenario {
         // a small game first, so that the large searches come after a ucinewgame and are
         // compared with a fresh process too (whatever a new game sets up - table sizes,
         // defaults - must be what a process starts with)
-        prefix: vec!["position startpos".to_string(), "go depth 3".to_string()],
+        // two games first (the first large enough to make tables grow), so that the large
+        // searches come after a second ucinewgame: what a new game inherits from the game
+        // before the last one must not show either
+        prefix: vec!["position startpos moves d2d4 d7d5".to_string(), "go depth 6".to_string(), "ucinewgame".to_string(), "position startpos moves e2e4".to_string(), "go depth 2".to_string()],
         suffix: vec![
             format!("position startpos moves {}", open),
             format!("go depth {}", d),
@@ -341,7 +344,7 @@ pub fn generate_giant(seed: u64) -> Scenario {
         suffix.push("go depth 7".to_string());
     }
     Scenario {
-        prefix: vec!["position startpos".to_string(), "go depth 3".to_string()],
+        prefix: vec!["position startpos moves d2d4 d7d5".to_string(), "go depth 6".to_string(), "ucinewgame".to_string(), "position startpos moves e2e4".to_string(), "go depth 2".to_string()],
         suffix,
         key_seeds: vec![rng.next_u64()],
         forced: vec![],
@@ -352,6 +355,27 @@ pub fn generate_giant(seed: u64) -> Scenario {
 
 pub fn generate(seed: u64, big: bool) -> Scenario {
     let mut rng = Rng::new(seed);
+    if !big && rng.chance(1, 12) {
+        // a prefix that sets positions up but never searches, then ucinewgame and a go without
+        // a position command: the new game starts from the start position with no history
+        let mut prefix = vec![];
+        for _ in 0..rng.range(1, 2) {
+            let (ms, _) = gen::playout(&mut rng, &Pos::startpos(), 6, 0);
+            let (sh, _) = gen::shuffle_history(&Pos::startpos(), 8);
+            let mut all = if rng.chance(1, 2) { gen::moves_uci(&sh) } else { vec![] };
+            all.extend(gen::moves_uci(&ms));
+            prefix.push(format!("position startpos moves {}", all.join(" ")));
+            if rng.chance(1, 3) {
+                prefix.push("isready".to_string());
+            }
+        }
+        let mut suffix = vec![format!("go depth {}", rng.range(2, 4))];
+        if rng.chance(1, 2) {
+            suffix.push("position startpos moves e2e4".to_string());
+            suffix.push(format!("go depth {}", rng.range(1, 3)));
+        }
+        return Scenario { prefix, suffix, key_seeds: vec![rng.next_u64(), rng.next_u64()], forced: vec![], real_binary: false, node_cap: 0 };
+    }
     let mut prefix = vec![];
     let mut suffix = vec![];
     let mut forced = vec![];
